@@ -26,6 +26,7 @@ CONSTANTS Variant,        \* "aswritten" | "fixed"
           DebugAsserts,   \* debug_assert! compiled in (the harness build: TRUE)
           FailKinds,      \* subset of {"err", "death", "stop"}
           Arities,        \* numbers of parameters explored by the machine (subset of 0..6)
+          BpChoice,       \* "all": every subset of the breakpoint sites; "some": {}, {pc}, {pc, callee, later}
           Emit            \* "none" | "term" | "cases"
 
 ------------------------------------------------------------------------------
@@ -179,7 +180,7 @@ Cases ==
                     /\ Len(Fns[g][2]) \in 2..6 /\ q <= Len(Fns[g][2])
                     /\ Expect(Fns[g][2][q], AllLits[h]).cls = "ok"}}
     \* distinct values per position (register order), wrong arity, too many parameters
-    \cup {CaseJson("distinct", f, Defaults(f, Len(Fns[f][2]))) : f \in {g \in 1..Len(Fns) : Len(Fns[g][2]) <= 6}}
+    \cup {CaseJson("distinct", f, Defaults(f, Len(Fns[f][2]))) : f \in {g \in Plain : Len(Fns[g][2]) <= 6}}
     \cup {CaseJson("arity", f, Defaults(f, Len(Fns[f][2]) - 1)) : f \in {g \in Plain : Len(Fns[g][2]) \in 1..6}}
     \cup {CaseJson("arity", f, Defaults(f, Len(Fns[f][2]) + 1)) : f \in {g \in Plain : Len(Fns[g][2]) <= 6}}
     \cup {CaseJson("toomany", f, Defaults(f, 7)) : f \in {g \in Plain : Len(Fns[g][2]) = 7}}
@@ -218,8 +219,10 @@ VARIABLES c,         \* the case: stop position, breakpoints, arity, fault  (cho
           outcome    \* "running" | "ok" | "err" | "panic"
 vars == <<c, ctl, regs, word, tramp, maps, patched, bpsaved, rz, log, alive, sv, alloc, res, outcome>>
 
-Positions == {"entry", "mid", "leaf"}        \* "at a user breakpoint" = "pc" \in c.bps
+\* "callee": stopped inside the very function that is then called; "at a user breakpoint" = "pc" \in c.bps
+Positions == {"entry", "mid", "leaf", "callee"}
 BpSites == {"pc", "callee", "later"}
+BpSets == IF BpChoice = "all" THEN SUBSET BpSites ELSE {{}, {"pc"}, BpSites}
 ArgRegs == <<"rdi", "rsi", "rdx", "rcx", "r8", "r9">>
 RegNames == {"rip", "rsp", "rax", "rdi", "rsi", "rdx", "rcx", "r8", "r9", "r10", "r11", "rbx", "flags"}
 Regs0 == [r \in RegNames |-> IF r = "rip" THEN "pc" ELSE IF r = "rsp" THEN "sp0" ELSE "i"]
@@ -243,10 +246,10 @@ Faults == {<<"none", "none">>}
 
 Strikes(p) == c.fp = p
 LiveRZ == c.pos = "leaf"                 \* the stopped frame keeps data under rsp
-AlignedAtStop == c.pos # "entry" /\ c.pos # "leaf"     \* rsp = 0 mod 16 (entry/leaf: a return address was pushed)
+AlignedAtStop == c.pos \notin {"entry", "leaf"}     \* rsp = 0 mod 16 (entry/leaf: a return address was pushed)
 
 Init ==
-    /\ \E pos \in Positions, bps \in SUBSET BpSites, n \in Arities, mk \in BOOLEAN, f \in Faults :
+    /\ \E pos \in Positions, bps \in BpSets, n \in Arities, mk \in BOOLEAN, f \in Faults :
           c = [pos |-> pos, bps |-> bps, n |-> n, makeable |-> mk, fp |-> f[1], fk |-> f[2]]
     /\ ctl = "D" /\ regs = Regs0 /\ word = "orig" /\ tramp = "none" /\ maps = {}
     /\ patched = c.bps /\ bpsaved = [s \in BpSites |-> "orig"]
@@ -280,7 +283,10 @@ StepAtPc(hit) ==
 CalleeEntry == [args |-> [i \in 1..c.n |-> regs[ArgRegs[i]]],
                 aligned |-> IF regs.rsp = "low" THEN TRUE ELSE AlignedAtStop]
 RunCall(hit) ==
-    IF regs.rip = "tramp" /\ tramp = "call" /\ regs.rax = "fn"
+    IF regs.rip = "tramp" /\ tramp = "call" /\ regs.rax = "fn" /\ c.pos = "callee" /\ word # "orig"
+    THEN \* the callee's own code contains pc, which still holds the trampoline's `jmp *%rax`: it never returns
+         /\ regs' = [regs EXCEPT !.rip = "loop", !.rsp = "cl"] /\ UNCHANGED <<rz, log>>
+    ELSE IF regs.rip = "tramp" /\ tramp = "call" /\ regs.rax = "fn"
     THEN /\ rz' = IF regs.rsp = "sp0" THEN [ret |-> "clobbered", deep |-> "clobbered"] ELSE rz
          /\ IF "callee" \in patched \/ hit
             THEN \* a breakpoint in the callee / a signal: the callee does not get to its end
@@ -375,14 +381,18 @@ StepC1 ==      \* POKE the trampoline
     /\ ctl = "C1"
     /\ IF ReqFails("C1") \/ alloc \notin maps THEN FailForward("C1") /\ UNCHANGED patched
        ELSE /\ tramp' = "call" /\ ctl' = "C2"
-            /\ UNCHANGED <<c, regs, word, maps, patched, bpsaved, rz, log, alive, sv, alloc, res, outcome>>
+            /\ IF Variant = "fixed" THEN PokePc(sv.text) ELSE UNCHANGED <<word, patched>>   \* repair: original text back before the callee runs
+            /\ UNCHANGED <<c, regs, maps, bpsaved, rz, log, alive, sv, alloc, res, outcome>>
 StepC2 == SetRegs("C2", [WithArgs(sv.regs) EXCEPT !.rax = "fn", !.rip = alloc,
                                                    !.rsp = IF Variant = "fixed" THEN "low" ELSE sv.regs.rsp])
 StepC3 == Simple("C3", /\ RunCall(c.fp = "C4" /\ c.fk = "stop")
                        /\ UNCHANGED <<word, tramp, maps, patched, bpsaved, sv, alloc>>)
 StepC4 ==      \* waitpid; debug_assert!(res == Stopped(pid, SIGTRAP))
     /\ ctl = "C4"
-    /\ IF ~alive \/ (Strikes("C4") /\ c.fk = "death") THEN FailForward("C4") /\ UNCHANGED patched
+    /\ IF alive /\ regs.rip = "loop"
+       THEN /\ Finish("hang")           \* waitpid never returns
+            /\ UNCHANGED <<c, regs, word, tramp, maps, patched, bpsaved, rz, log, alive, sv, alloc, res>>
+       ELSE IF ~alive \/ (Strikes("C4") /\ c.fk = "death") THEN FailForward("C4") /\ UNCHANGED patched
        ELSE IF Strikes("C4") /\ c.fk = "stop"
             THEN IF Variant = "fixed" THEN FailForward("C4") /\ UNCHANGED patched
                  ELSE IF DebugAsserts THEN Panic /\ UNCHANGED alive
@@ -462,7 +472,7 @@ PostLog == /\ Len(log) <= 1
            /\ outcome = "ok" => /\ Len(log) = 1
                                 /\ log[1].args = [i \in 1..c.n |-> "arg" \o ToString(i)]
                                 /\ log[1].aligned
-PostReport == /\ outcome # "panic"
+PostReport == /\ outcome \notin {"panic", "hang"}
               /\ ~c.makeable => outcome = "err"                     \* a call that cannot be made reports an error
               /\ (c.makeable /\ c.fp = "none") => outcome = "ok"
 PostNames == <<"regs", "text", "maps", "bps", "stack", "log", "report">>
@@ -490,8 +500,8 @@ Spec == Init /\ [][Next]_vars
 
 \* invariants for Variant = "fixed": every avoidable exit path meets the reference
 AllPost == (Done /\ Avoidable) => Violated = {}
-NoPanic == outcome # "panic"
+NoPanic == outcome \notin {"panic", "hang"}
 \* as written, without faults, away from a red zone and on an aligned stack: the reference is met
 HappyPathOk == (Done /\ c.fp = "none" /\ c.pos = "mid") => Violated = {}
-TypeOK == /\ outcome \in {"running", "ok", "err", "panic"} /\ maps \subseteq {"tramp"} /\ patched \subseteq BpSites
+TypeOK == /\ outcome \in {"running", "ok", "err", "panic", "hang"} /\ maps \subseteq {"tramp"} /\ patched \subseteq BpSites
 =============================================================================
